@@ -3,6 +3,7 @@ from vverif import seq
 from vverif.core import Result, HarnessError
 
 LEVEL = 'exploration'
+KNOWN_CLASS = 'obs-fold-blank-continuation:value-keeps-line-terminator'  # see known_findings.d/C25.json
 RULE = ('every string of <= L tokens (5 quick, 6 thorough) over the 14-token alphabet {A, Content-Length, Transfer-Encoding, '
         '":", SP, HTAB, CRLF, LF, CR, NUL, v, 1, chunked, ","} (plus 9 structured multi-field blocks), each placed in 3 contexts '
         '(alone, after a field, before a field) x 2 blank-line terminators (CRLF CRLF, LF LF) x owner {request, reply} x '
@@ -32,7 +33,8 @@ def run(ctx):
     m = seq.run(ctx, exe)
     oc, cnt = m['outcomes'], m['counters']
     # vacuity guards apply to complete runs without (unknown) violations
-    if not m['deadline_hit'] and not m['failures'] and not m['crashes']:
+    other = [f for f in m['failures'] if f['key'] != KNOWN_CLASS]
+    if not m['deadline_hit'] and not other and not m['crashes']:
         need = ['accepted-with-fields', 'rejected-unspecified', 'must-reject:nul-byte', 'must-reject:whitespace-before-colon',
                 'must-reject:obs-fold-in-framing-field', 'must-reject:bare-cr-in-framing-field', 'must-reject:cr-only-request-line']
         missing = [k for k in need if oc.get(k, 0) == 0]
